@@ -778,7 +778,12 @@ Qed.
 Lemma single_client_example : single_client (wit_pre ++ AuthOK 2 20 7 :: nv_post).
 Proof.
   intros n1 n2 c x1 x2 H1 H2. unfold wit_pre, nv_post in *. cbn [app In] in *.
-  repeat (destruct H1 as [H1|H1]; [try discriminate H1|]); try contradiction;
-  repeat (destruct H2 as [H2|H2]; [try discriminate H2|]); try contradiction;
-  injection H1 as _ <- <-; injection H2 as _ E <-; try reflexivity; discriminate E.
+  repeat (destruct H1 as [H1|H1]; [try discriminate H1; injection H1 as <- <- <-|]); try contradiction;
+  (repeat (destruct H2 as [H2|H2]; [try discriminate H2; inversion H2; reflexivity|]); contradiction).
 Qed.
+
+(* after the last connection of client 7 is closed the lookup answers Absent (computed instance) *)
+Lemma after_close_example :
+  find current_variant redis_backend
+       (run current_variant redis_backend 300000 init (wit_pre ++ [AuthOK 2 20 7; Close 1 10; Tick 5; Close 2 20])) 1 7 = Absent.
+Proof. vm_compute. reflexivity. Qed.
